@@ -219,6 +219,12 @@ def corpus():
                    "kernel": kern, "window_function": "fixed", "kw": {}, "token_dictionary": None})
     cs.append({"kind": "skipgram", "X": X, "Xt": [["a", "b"]], "radius": 2, "kernel": "flat",
                "window_function": "fixed", "kw": {}, "token_dictionary": [["a", 0], ["b", 1], ["z", 2]]})
+    # a vocabulary of more than 1024 tokens (n^2 > 2^20 raw pair ids): pairs of known tokens never seen together at
+    # fit must be dropped at transform, not credited to a neighbouring kept pair
+    big = [[f"t{i:04d}", i] for i in range(1100)]
+    cs.append({"kind": "skipgram", "X": [["t1090", "t1091", "t1092", "t1093"], ["t0003", "t0004", "t1095", "t0003"], ["t0500", "t0501"]],
+               "Xt": [["t1093", "t1092", "t1091", "t1090"], ["t0004", "t0003", "t0500"], ["t1090", "t1091"], ["t0777", "t0778"]],
+               "radius": 2, "kernel": "flat", "window_function": "fixed", "kw": {}, "token_dictionary": big})
     cs.append({"kind": "skipgram", "X": [["d", "d"]], "Xt": [["y"], [], ["z", "x", "d", "z", "y", "e", "y", "z"], ["d", "d", "d"]],
                "radius": 1, "kernel": "geometric", "window_function": "fixed", "kw": {},
                "token_dictionary": [["d", 0], ["c", 1], ["a", 2], ["e", 3], ["b", 4], ["q", 5]]})
@@ -362,6 +368,12 @@ def run_impl(case):
         idx = dict((k, v) for k, v in out["c"]["idx"])
         out["enum"] = [idx[i] for i in range(la, len(idx)) if i in idx]
         _try(out["c"], "trXt", lambda: _mat(c.transform(case["Xt"])))
+        # a merged model as the LEFT operand of a further merge with a freshly fitted model over the same vocabulary
+        # (the merged model's columns are in merge order, the fresh model's in sorted order)
+        try:
+            out["chain"] = _ngram_fitted(c + j)
+        except Exception as e:
+            out["chain_exc"] = _exc(e)
         # the left operand is used again: merged with a model over a sub-vocabulary of its own corpus
         # (every pair of fitted models must merge like the concatenated fit, also after an earlier merge)
         sub = [d for d in case["Xa"] if d][:1]
@@ -513,6 +525,8 @@ def model_requests(case, outs):
     if kind == "skipgram":
         if min(o["ws"] + [0]) < 0:
             return []        # variable radii of a zero-frequency dictionary token: not a window radius
+        if len(o["tok"]) > 200:
+            return []        # n^2 columns as Lean lists: too slow; the large-vocabulary cases are decided by the oracle
         R = max(o["ws"] + [1])
         return [{"op": "skipgram.fit", "tok": [[tid[t], i] for t, i in o["tok"]], "inv": [[i, tid[t]] for i, t in o["inv"]],
                  "ws": o["ws"], "kw": _kernel_weights(case["kernel"], R),
@@ -818,6 +832,17 @@ def _oracle_add(case, o):
                                          f"counts of the tokens of both vocabularies {exp}"))
     if "trXt" in j and _by_label(j, j["trXt"]) != exp:
         fails.append(_F("add.joint-fit-transform", "fit(Xa+Xb).transform is not the token counts"))
+    # (a + b) + fit(Xa + Xb): columns the union, training matrix = counts of Xa+Xb followed by Xa+Xb again, by label
+    if "chain_exc" in o:
+        fails.append(_F("add.chain.raises", f"(a + b) + fit(Xa+Xb) raises {o['chain_exc']}"))
+    elif "chain" in o:
+        ch = o["chain"]
+        labc = [l for l, _ in ch["col"]]
+        expc = exp_train + exp_train
+        if set(labc) != vocab or len(labc) != len(vocab):
+            fails.append(_F("add.chain.columns", f"(a+b)+j columns {sorted(map(str, labc))} expected {sorted(vocab)}"))
+        elif ch["train"]["shape"] != [2 * (len(Xa) + len(Xb)), len(vocab)] or _by_label(ch, ch["train"]) != expc:
+            fails.append(_F("add.chain.train-matrix", f"((a+b)+fit(Xa+Xb))._train_matrix by label {_by_label(ch, ch['train'])} expected {expc}"))
     # second merge with the same left operand
     if "c2_exc" in o:
         fails.append(_F("add.second-merge.raises", f"a + a_sub (after a + b) raises {o['c2_exc']}"))
